@@ -452,6 +452,7 @@ type Result struct {
 	Canon     string // nil | err:<text> | panic:<msg> | str:<s> | list:<a>\x1f<b>
 	Unordered bool
 	Handed    []string // strings handed out by the call, kept WITHOUT copying
+	Err       error    // the error VALUE handed out (its text is asked for again later: it must not change either)
 	Mutated   string   // "" or a description of how an input was modified
 }
 
@@ -478,6 +479,7 @@ func (c Call) Exec() (res Result) {
 		}
 		s := err.Error()
 		res.Handed = append(res.Handed, s)
+		res.Err = err
 		res.Canon = "err:" + s
 	}
 	tag := []string{}
